@@ -111,6 +111,10 @@ func (s *Script) Compile() (*Compiled, error) {
 	}
 
 	// reduce globals size
+	if symbolTable.MaxSymbols()+1 > len(globals) {
+		return nil, fmt.Errorf("too many global variables: %d (max %d)",
+			symbolTable.MaxSymbols(), len(globals)-1)
+	}
 	globals = globals[:symbolTable.MaxSymbols()+1]
 
 	// global symbol names to indexes
